@@ -27,6 +27,19 @@ from pymbolic.mapper import RecursiveMapper
 from pymbolic.primitives import Variable
 
 
+def _make_regrouper(cls):
+    def regroup(terms):
+        # Bind the operands as they are. (flattened_sum/flattened_product
+        # would drop operands that are zero/one or collapse a product with a
+        # zero factor, and the binding would no longer reproduce the target.)
+        terms = tuple(terms)
+        if len(terms) == 1:
+            return terms[0]
+        return cls(terms)
+
+    return regroup
+
+
 def unify_map(map1, map2):
     result = map1.copy()
     for name, value in map2.items():
@@ -428,9 +441,11 @@ class UnidirectionalUnifier(UnifierBase):
             set(range(len(other.children))))
 
     def map_sum(self, expr, other, unis):
-        from pymbolic.primitives import flattened_sum
-        return list(self.map_commut_assoc(expr, other, unis, flattened_sum))
+        from pymbolic.primitives import Sum
+        return list(self.map_commut_assoc(
+            expr, other, unis, _make_regrouper(Sum)))
 
     def map_product(self, expr, other, unis):
-        from pymbolic.primitives import flattened_product
-        return list(self.map_commut_assoc(expr, other, unis, flattened_product))
+        from pymbolic.primitives import Product
+        return list(self.map_commut_assoc(
+            expr, other, unis, _make_regrouper(Product)))
